@@ -480,3 +480,108 @@ def rule_call_parens(ctx, prop):
                           f"{b} constructs FunctionArgs outside format_function_args: a layout path that bypasses the "
                           f"call_parentheses decision", None, cfg)
     return rep
+
+
+def rule_lookahead(ctx, prop):
+    """the producer side of `obscure without parentheses`: what format_function_call tells format_suffix about the suffix
+    that follows a call"""
+    rep = Report(prop, "R-OPT(lookahead)", "format_function_call reports ObscureWithoutParens to format_suffix whenever the next "
+                                           "suffix is an index of any kind or a method call, and None otherwise")
+    for cfg, prog in ctx.programs.items():
+        f = prog.fn("stylua_lib", "formatters::functions::format_function_call")
+        if not rep.anchor(f is not None, "format_function_call", cfg):
+            continue
+        obs, non = [], []
+        for b, si_, s in f.stmts():
+            if s["k"] == "assign" and s["rv"]["k"] == "agg" and s["rv"].get("adt", "").endswith("FunctionCallNextNode") and not s["rv"]["ops"]:
+                (obs if s["rv"]["variant"] == "ObscureWithoutParens" else non).append(b)
+        if not rep.anchor(bool(obs) and bool(non), "both FunctionCallNextNode answers in format_function_call", cfg):
+            continue
+        merge = {b for b, t in f.calls() if callee(t).endswith("format_suffix")}
+        def answers(frm):
+            """which answers can follow the edge `frm`, with constant booleans (`matches!`) followed branch by branch"""
+            out = set()
+            seen = set()
+            work = [(frm, ())]
+            while work:
+                b, env = work.pop()
+                if (b, env) in seen or b in merge or len(seen) > 4000:
+                    continue
+                seen.add((b, env))
+                e = dict(env)
+                if b in obs:
+                    out.add("O")
+                    continue
+                if b in non:
+                    out.add("N")
+                    continue
+                for s_ in f.blocks[b]["st"]:
+                    if s_["k"] == "assign" and not s_["dst"].get("p"):
+                        rv = s_["rv"]
+                        if rv["k"] == "use" and is_const(rv["o"]) and isinstance(rv["o"].get("v"), bool):
+                            e[s_["dst"]["l"]] = rv["o"]["v"]
+                        elif rv["k"] == "use" and not is_const(rv["o"]) and not op_place(rv["o"]).get("p") and op_place(rv["o"])["l"] in e:
+                            e[s_["dst"]["l"]] = e[op_place(rv["o"])["l"]]
+                        else:
+                            e.pop(s_["dst"]["l"], None)
+                t = f.blocks[b]["term"]
+                env2 = tuple(sorted(e.items()))
+                if t["k"] == "switch" and t["ty"] == "bool" and op_local(t["on"]) in e and not op_place(t["on"]).get("p"):
+                    val = e[op_local(t["on"])]
+                    fl = [bb for v, bb in t["targets"] if v == 0]
+                    work.append(((t["otherwise"] if val else fl[0]) if fl else t["otherwise"], env2))
+                    continue
+                for nb in f.term_succ(b):
+                    work.append((nb, env2))
+            return ("O" if "O" in out else "") + ("N" if "N" in out else "")
+        # the match on the next suffix: a switch on a Suffix obtained from peek() one of whose edges is answered
+        # ObscureWithoutParens; the nearest one to the answers
+        cands = []
+        for b in range(len(f.blocks)):
+            si = switch_info(f, b)
+            if si and si["enum"].endswith("ast::Suffix") and \
+                    any(c.endswith("::peek") for c in prov_calls(provenance(f, {"cp": si["place"]}))):
+                edges = [bb for bb in list(si["targets"].values()) + [si["otherwise"]] if bb is not None]
+                if any("O" in answers(bb) for bb in edges):
+                    cands.append((len(f.dominators().get(b, ())), b, si))
+        last = [c for c in cands if not any(o[1] != c[1] and o[1] in f.reach_from(c[1], avoid=merge) for o in cands)]
+        if len(last) != 1:
+            # the look-ahead is written in a form this rule does not read (closure, helper returning the enum, ..):
+            # nothing is claimed for this configuration rather than raising an alarm on a shape
+            rep.notes.append(f"[{cfg}] look-ahead of format_function_call not in switch form: clause not evaluated")
+            continue
+        _, sb, si = last[0]
+        ti = si["targets"].get("Index")
+        tc = si["targets"].get("Call")
+        problems = []
+        if ti is None:
+            problems.append(("Index", "not distinguished"))
+        else:
+            a = answers(ti)
+            if a != "O":
+                problems.append(("Index", "can be answered None" if "N" in a else "never answered ObscureWithoutParens"))
+        if tc is None:
+            problems.append(("Call", "not distinguished"))
+        else:
+            inner = None
+            for b in sorted(f.reach_from(tc, avoid=merge)):
+                s2 = switch_info(f, b)
+                if s2 and s2["enum"].endswith("ast::Call"):
+                    inner = s2
+                    break
+            if inner is None or inner["targets"].get("MethodCall") is None:
+                problems.append(("Call::MethodCall", "not distinguished"))
+            else:
+                a = answers(inner["targets"]["MethodCall"])
+                if a != "O":
+                    problems.append(("Call::MethodCall", "can be answered None"))
+                oth = [bb for v, bb in inner["targets"].items() if v != "MethodCall"] + [inner["otherwise"]]
+                if not any("N" in answers(bb) for bb in oth if bb is not None):
+                    problems.append(("Call::AnonymousCall", "never answered None"))
+        rep.inst(f"{f.key} look-ahead table: Index(*) | MethodCall -> Obscure, else None", None, cfg, ok=not problems)
+        for what, why in problems:
+            rep.violation(f"{f.key} next-suffix-lookahead {what} {why.replace(' ', '-')}",
+                          f"format_function_call: a following {what} suffix is {why}: under call_parentheses = None / NoSingleString / "
+                          f"NoSingleTable the parentheses of `f(\"s\")[1]` / `f({{}}):m()` are dropped although an index or method "
+                          f"call follows (or are kept where the option says to drop them)", f.loc(), cfg)
+    return rep
